@@ -22,6 +22,9 @@ func c10Extra(c *Ctx) {
 	c.Rule("OWNER-LOOP", "all owners of an import path are counted before deciding (no early exit from the owner loop)", 1)
 	c.Rule("CLOSURE-COMPLETE", "the ls-files walk follows the imports of every file it marks", 1)
 	ruleArgmax(c, "ARGMAX", []*packages.Package{pk}, 1)
+	ruleLoopAccum(c, "LOOP-ACCUM", c.P.ModulePkgs())
+	c10ForeignNotFound(c, pk)
+	c10BuilderRecords(c, pk)
 	// (b) owner loop
 	if fr := p.Func("private/bufpkg/bufmodule", "moduleSet.getModuleForFilePathUncached"); fr != nil {
 		ok, found := true, false
